@@ -470,8 +470,29 @@ def replay(ctx, case):
     try:
         w = case['witness']
         desc = w.get('case') or w.get('desc')
+        src = str(w.get('source') or '')
+        if isinstance(desc, list) and desc and isinstance(desc[-1], str) and isinstance(desc[0], list):
+            desc = desc[0]                                   # [[script], 'stitched-at', node] of the stitched scenario
+        if isinstance(desc, list) and src in ('topology/slice', 'topology/substrate') and all(isinstance(o, dict) and 'op' in o for o in desc):
+            # a model built through the topology API: run its build script again, then every scenario
+            from vlib import topogen
+            store = w.get('store', 'shared')
+            imp, cls = env.imps[store]
+            imp.delete_all_graphs()
+            topogen.seed_uuid('replay')
+            topo = topogen.new_topology(imp, 'substrate' if src.endswith('substrate') else 'experiment')
+            for op in desc:
+                try:
+                    topogen.execute(topo, op)
+                except Exception:
+                    pass
+            d = {'source': src, 'case': desc, 'nontrivial': True}
+            round_trip(env, store, topo.graph_model, d)
+            scenario_interleaved(env, store, topo.graph_model, d)
+            scenario_stitched(env, store, topo.graph_model, d)
+            return
         if not isinstance(desc, dict) or 'nodes' not in desc:
-            ctx.mark_inconclusive('replay supports raw-graph witnesses only; re-run the tier with the recorded seed')
+            ctx.mark_inconclusive('replay supports raw-graph and topology-script witnesses only; re-run the tier with the recorded seed')
             return
         store = w.get('store', 'shared')
         imp, cls = env.imps[store]
